@@ -130,3 +130,24 @@ Fixpoint static_codes (w : list (form * N)) (tbl : list form) (got : list (optio
   | _, _ => 3
   end.
 Definition check_static (c : scase) : N := static_codes (s_written c) (s_table c) (s_impl c).
+
+(** UnusedForm warnings of the whole-project paths: one level of one locale of a multi-locale project.
+    [u_merge]: the warnings `LocalesOrNamespaces::merge_plurals` emitted for this locale and level;
+    [u_pipeline]: those returned by `parse_locales` (whole pipeline).
+    0 both are exactly the expected warnings (no missing, extra or repeated one) and equal the model's;
+    2 differ from the model only; 3 a warning is missing, extra or repeated *)
+Record ucase := mk_ucase {
+  u_path : list str; u_cats_card : list form; u_cats_ord : list form; u_keys : list (str * ival);
+  u_merge : list warning; u_pipeline : list warning }.
+Fixpoint nodup_w (l : list warning) : bool :=
+  match l with [] => true | w :: r => negb (existsb (warning_eqb w) r) && nodup_w r end.
+Definition warns_exact (expected got : list warning) : bool :=
+  incl_b warning_eqb got expected && incl_b warning_eqb expected got && nodup_w got.
+Definition check_unused (c : ucase) : N :=
+  let cats := fun r => match r with Cardinal => u_cats_card c | Ordinal => u_cats_ord c end in
+  let expected := expected_warnings cats (u_path c) (u_keys c) in
+  if negb (warns_exact expected (u_merge c) && warns_exact expected (u_pipeline c)) then 3
+  else match project_warnings (fun _ => true) (u_path c) [(cats, u_keys c)] with
+       | [ws] => if warns_exact ws (u_merge c) && warns_exact ws (u_pipeline c) then 0 else 2
+       | _ => 2
+       end.
